@@ -4,6 +4,7 @@ package main
 // forall/exists. Hand-written Pratt parser.
 
 import (
+	"strconv"
 	"fmt"
 	"strings"
 	"unicode"
@@ -104,7 +105,14 @@ func lexExpr(s string) ([]tok, error) {
 			if j >= len(s) {
 				return nil, fmt.Errorf("unterminated string")
 			}
-			toks = append(toks, tok{"str", s[i+1 : j]})
+			lit := s[i+1 : j]
+			if strings.Contains(lit, "\\") {
+				// Go escapes (\t, \n, ...)
+				if u, err := strconv.Unquote("\"" + lit + "\""); err == nil {
+					lit = u
+				}
+			}
+			toks = append(toks, tok{"str", lit})
 			i = j + 1
 		default:
 			ops := []string{"<==>", "==>", "::", "..", "==", "!=", "<=", ">=", "&&", "||", "<", ">", "+", "-", "*", "/", "%", "!", "(", ")", "[", "]", ",", ".", ":", "?"}
